@@ -377,7 +377,8 @@ TRUSTED_BASE = [
     "Coq 8.16.1 kernel (coqc; coqchk in the thorough tier); vm_compute used for witnesses and for evaluating the model on cases; native_compute not used",
     "no axioms declared in the development; Print Assumptions of every property theorem is parsed on every run",
     "hand-written Gallina model of the code named in the property's anchors (not a translation of the Go source)",
-    "correspondence harness (Go, /verif/harness) driving the real rigo-go code, case-file emission, this python orchestration and its Coq-term reader",
+    "correspondence harness (Go, /verif/harness) driving the real rigo-go code, case-file emission, this python orchestration and its Coq-term reader; the comparator evaluated in Coq is proved sound (PredicatesSound.check_prop_sound) and is not part of the trusted base",
+    "EVM executions enter the application model as observed effects; the contract the theorems assume of them is checked on every observed effect (EffectCheck.check_effects_sound)",
     "Go toolchain, go-ethereum, tendermint, iavl, goleveldb as libraries of the implementation",
 ]
 
